@@ -30,6 +30,9 @@ struct Run {
     /// besides servicing events the driver polls both connections every so many microseconds of
     /// virtual time (script-free histories only)
     busy_us: Option<u64>,
+    /// drained part only: the closing side is drained early by its peer's stateless reset (arriving
+    /// this many microseconds after the close) instead of by its close timer
+    reset_after_us: Option<u64>,
 }
 
 fn cfg_of(name: &str) -> crate::sim::PairCfg {
@@ -88,6 +91,7 @@ struct Out {
     post_drain: Vec<String>,
     timeouts_rel: Vec<Option<Duration>>,
     panic: Option<String>,
+    reset_sent: bool,
 }
 
 fn full_trace(p: &StdPair) -> u64 {
@@ -141,11 +145,12 @@ fn run(process_base: Instant, hs: &[Hist], r: &Run) -> Out {
             w.fates = fates_of(&h.devs, &FATE_ALTS);
             w.hold_drained = r.drained_part;
         });
+        let mut reset_sent = false;
         let mut script = h.script.clone();
         if let Some(e) = &r.extra {
             script.push(e.clone());
         }
-        if r.drained_part {
+        if r.drained_part && r.reset_after_us.is_none() {
             // close, drain, then feed everything again
             script.push((30, Op::Close(CLIENT, 9)));
         }
@@ -164,6 +169,27 @@ fn run(process_base: Instant, hs: &[Hist], r: &Run) -> Out {
                         crate::scen::apply_op(&mut p, &Op::SpuriousSettle(SERVER));
                     }
                 }
+            }
+        } else if let Some(us) = r.reset_after_us {
+            // run to the close point by hand, close, and let the peer's stateless reset arrive
+            let mut g = 0;
+            while p.w.steps < 30 && g < 1000 {
+                g += 1;
+                for (st, op) in &h.script {
+                    if *st == p.w.steps {
+                        crate::scen::apply_op(&mut p, op);
+                    }
+                }
+                if !p.w.step() {
+                    break;
+                }
+            }
+            let reset = crate::scen::exact_stateless_reset(&p, CLIENT);
+            crate::scen::apply_op(&mut p, &Op::Close(CLIENT, 9));
+            if let Some(d) = reset {
+                let (src, dst) = (p.w.nodes[SERVER].addr, p.w.nodes[CLIENT].addr);
+                p.w.inject(src, dst, d, Duration::from_micros(us));
+                reset_sent = true;
             }
         } else {
             drive(&mut p, &script, 40_000, Duration::from_secs(300));
@@ -206,11 +232,12 @@ fn run(process_base: Instant, hs: &[Hist], r: &Run) -> Out {
                 }
             }
         }
-        p
+        (p, reset_sent)
     });
     match res {
-        Err(e) => Out { sem_lines: vec![], sem: 0, sem_once: 0, dump: String::new(), abs: 0, abs_lines: vec![], trace: 0, steps: 0, streak: 0, post_drain: vec![], timeouts_rel: vec![], panic: Some(e) },
-        Ok(p) => Out {
+        Err(e) => Out { sem_lines: vec![], sem: 0, sem_once: 0, dump: String::new(), abs: 0, abs_lines: vec![], trace: 0, steps: 0, streak: 0, post_drain: vec![], timeouts_rel: vec![], panic: Some(e), reset_sent: false },
+        Ok((p, reset_sent)) => Out {
+            reset_sent,
             sem_lines: if DUMP.load(std::sync::atomic::Ordering::Relaxed) {
                 let mut v = vec![];
                 for node in [CLIENT, SERVER] {
@@ -289,18 +316,18 @@ pub fn main(args: &Args) -> ! {
     let thorough = args.tier == Tier::Thorough;
     let dl = deadline(if thorough { 1200 } else { 45 });
     let hs = histories(thorough);
-    rep.rule = "Differential runs over a list of input histories H (fault-free baselines of several configurations/workloads incl. Retry, CID rotation, key update, NAT rebinding, migration and unroutable datagrams that draw stateless resets, plus every single-deviation history over the fate alphabet in the first datagrams): (1) H twice -> identical full trace (instant, destination, bytes of every datagram; every event; every timer firing); (2) H with every supplied Instant shifted by 1 s / 1 day / 10 years -> identical trace relative to the base; (3) for EVERY step index j of H a spurious handle_timeout(now) or an extra poll round is inserted -> identical trace; (4) a timer never fires more than 16 consecutive times at one instant; (3b) script-free histories driven by a busy-polling loop (extra transmit polls every 20/50/100/1000 us of virtual time, incl. rate-limited senders) -> same events and loss counters as the event-driven run; (5) after both sides are drained every datagram of the run is fed again and ten timeouts are delivered -> no transmit, no event, no endpoint event. Non-trivial = a run with a shift or an inserted call; distinct = distinct (history, variant) pairs.".into();
+    rep.rule = "Differential runs over a list of input histories H (fault-free baselines of several configurations/workloads incl. Retry, CID rotation, key update, NAT rebinding, migration and unroutable datagrams that draw stateless resets, plus every single-deviation history over the fate alphabet in the first datagrams): (1) H twice -> identical full trace (instant, destination, bytes of every datagram; every event; every timer firing); (2) H with every supplied Instant shifted by 1 s / 1 day / 10 years -> identical trace relative to the base; (3) for EVERY step index j of H a spurious handle_timeout(now) or an extra poll round is inserted -> identical trace; (4) a timer never fires more than 16 consecutive times at one instant; (3b) script-free histories driven by a busy-polling loop (extra transmit polls every 20/50/100/1000 us of virtual time, incl. rate-limited senders) -> same events and loss counters as the event-driven run; (5) after both sides are drained (by the close timer, or early by the peer's stateless reset arriving 1 / 40 ms after the close) every datagram of the run is fed again and ten timeouts are delivered -> no transmit, no event, no endpoint event. Non-trivial = a run with a shift or an inserted call; distinct = distinct (history, variant) pairs.".into();
     // baselines
-    let (bres, _) = e3((0..hs.len()).collect::<Vec<_>>(), dl, |&i| run(pbase, &hs, &Run { h: i, shift: Duration::ZERO, extra: None, drained_part: false, busy_us: None }));
+    let (bres, _) = e3((0..hs.len()).collect::<Vec<_>>(), dl, |&i| run(pbase, &hs, &Run { h: i, shift: Duration::ZERO, extra: None, drained_part: false, busy_us: None, reset_after_us: None }));
     let base: Vec<(u64, u64)> = bres.iter().map(|(_, o)| (o.trace, o.steps)).collect();
     let base_abs: Vec<u64> = bres.iter().map(|(_, o)| o.abs).collect();
     let base_sem: Vec<u64> = bres.iter().map(|(_, o)| o.sem).collect();
     let base_once: Vec<u64> = bres.iter().map(|(_, o)| o.sem_once).collect();
     let mut runs = vec![];
     for (i, _) in hs.iter().enumerate() {
-        runs.push(Run { h: i, shift: Duration::ZERO, extra: None, drained_part: false, busy_us: None });
+        runs.push(Run { h: i, shift: Duration::ZERO, extra: None, drained_part: false, busy_us: None, reset_after_us: None });
         for sh in [1u64, 86_400, 315_360_000] {
-            runs.push(Run { h: i, shift: Duration::from_secs(sh), extra: None, drained_part: false, busy_us: None });
+            runs.push(Run { h: i, shift: Duration::from_secs(sh), extra: None, drained_part: false, busy_us: None, reset_after_us: None });
         }
         // insertion points only for the first histories in quick (they dominate the cost)
         let ins = thorough || i < 34;
@@ -308,13 +335,17 @@ pub fn main(args: &Args) -> ! {
             let steps = base[i].1.min(if thorough { 400 } else { 120 });
             for j in 0..steps {
                 for n in [CLIENT, SERVER] {
-                    runs.push(Run { h: i, shift: Duration::ZERO, extra: Some((j, Op::SpuriousTimeout(n))), drained_part: false, busy_us: None });
-                    runs.push(Run { h: i, shift: Duration::ZERO, extra: Some((j, Op::SpuriousSettle(n))), drained_part: false, busy_us: None });
+                    runs.push(Run { h: i, shift: Duration::ZERO, extra: Some((j, Op::SpuriousTimeout(n))), drained_part: false, busy_us: None, reset_after_us: None });
+                    runs.push(Run { h: i, shift: Duration::ZERO, extra: Some((j, Op::SpuriousSettle(n))), drained_part: false, busy_us: None, reset_after_us: None });
                 }
             }
         }
         if i < 34 || thorough {
-            runs.push(Run { h: i, shift: Duration::ZERO, extra: None, drained_part: true, busy_us: None });
+            runs.push(Run { h: i, shift: Duration::ZERO, extra: None, drained_part: true, busy_us: None, reset_after_us: None });
+            // ... and drained early by the peer's stateless reset while the close timer is running
+            for us in [1_000u64, 40_000] {
+                runs.push(Run { h: i, shift: Duration::ZERO, extra: None, drained_part: true, busy_us: None, reset_after_us: Some(us) });
+            }
         }
         // a busy-polling driver: extra transmit polls at a fixed cadence between the events
         let h = &hs[i];
@@ -324,7 +355,7 @@ pub fn main(args: &Args) -> ! {
                 if !thorough && !paced && us != 100 {
                     continue;
                 }
-                runs.push(Run { h: i, shift: Duration::ZERO, extra: None, drained_part: false, busy_us: Some(us) });
+                runs.push(Run { h: i, shift: Duration::ZERO, extra: None, drained_part: false, busy_us: Some(us), reset_after_us: None });
             }
         }
     }
@@ -335,20 +366,22 @@ pub fn main(args: &Args) -> ! {
     let mut n_ins = 0u64;
     let mut n_drain = 0u64;
     let mut n_busy = 0u64;
+    let mut n_reset = 0u64;
     for (r, o) in &res {
         rep.evaluations += 1;
         let h = &hs[r.h];
-        let rj = json!({"check":"c20","cfg":h.cfg,"wl":format!("{:?}",h.wl),"devs":h.devs,"script":h.sname,"shift_s":r.shift.as_secs(),"extra":format!("{:?}",r.extra),"drained":r.drained_part,"busy_us":r.busy_us});
-        let desc = format!("history cfg={} wl={:?} devs={:?} script={} shift={:?} inserted={:?} busy-polling={:?}", h.cfg, h.wl, h.devs, h.sname, r.shift, r.extra, r.busy_us);
+        let rj = json!({"check":"c20","cfg":h.cfg,"wl":format!("{:?}",h.wl),"devs":h.devs,"script":h.sname,"shift_s":r.shift.as_secs(),"extra":format!("{:?}",r.extra),"drained":r.drained_part,"busy_us":r.busy_us,"reset_after_us":r.reset_after_us});
+        let desc = format!("history cfg={} wl={:?} devs={:?} script={} shift={:?} inserted={:?} busy-polling={:?} reset-after-close={:?}us", h.cfg, h.wl, h.devs, h.sname, r.shift, r.extra, r.busy_us, r.reset_after_us);
         if let Some(p) = &o.panic {
             rep.violation(Violation { signature: "panic".into(), what: format!("{desc}: panic {p}"), replay: rj.clone() });
             continue;
         }
         let mut hh = std::collections::hash_map::DefaultHasher::new();
         use std::hash::{Hash, Hasher};
-        (r.h, r.shift, format!("{:?}", r.extra), r.drained_part).hash(&mut hh);
+        (r.h, r.shift, format!("{:?}", r.extra), r.drained_part, r.reset_after_us, r.busy_us).hash(&mut hh);
         if r.drained_part {
             n_drain += 1;
+            n_reset += o.reset_sent as u64;
             rep.distinct.insert(hh.finish());
             if !o.post_drain.is_empty() {
                 rep.violation(Violation { signature: "output-after-drained".into(), what: format!("{desc}: a drained connection produced output: {:?}", &o.post_drain[..o.post_drain.len().min(3)]), replay: rj.clone() });
@@ -397,7 +430,7 @@ pub fn main(args: &Args) -> ! {
             n_ins += 1;
         }
     }
-    rep.part("differential", json!({"histories": hs.len(), "runs": total, "executed": res.len(), "time_shift_runs": n_shift, "insertion_runs": n_ins, "drained_runs": n_drain, "busy_polling_runs": n_busy, "capped": capped}));
+    rep.part("differential", json!({"histories": hs.len(), "runs": total, "executed": res.len(), "time_shift_runs": n_shift, "insertion_runs": n_ins, "drained_runs": n_drain, "busy_polling_runs": n_busy, "drained_early_by_stateless_reset_runs": n_reset, "capped": capped}));
     rep.sample(json!({"history":{"cfg":"default","wl":"W2","devs":[[7,0]]},"variant":{"inserted":"SpuriousTimeout(client) at step 31"},"meaning":"the run with datagram #7 dropped is repeated with one extra handle_timeout(now)+poll round on the client after step 31; every later datagram, event and timer must be identical"}));
     rep.assumptions = vec![
         "entropy: EndpointConfig::rng_seed fixed, counter-based ConnectionIdGenerator and initial_dst_cid_provider supplied by the harness (the built-in generators draw from the OS RNG by design)".into(),
@@ -428,8 +461,8 @@ fn replay(args: &Args) -> ! {
     let pbase = Instant::now();
     DUMP.store(true, std::sync::atomic::Ordering::Relaxed);
     let hs = vec![h];
-    let a = run(pbase, &hs, &Run { h: 0, shift: Duration::ZERO, extra: None, drained_part: false, busy_us: None });
-    let b = run(pbase, &hs, &Run { h: 0, shift: Duration::from_secs(r["shift_s"].as_u64().unwrap_or(0)), extra, drained_part: r["drained"].as_bool().unwrap_or(false), busy_us: r["busy_us"].as_u64() });
+    let a = run(pbase, &hs, &Run { h: 0, shift: Duration::ZERO, extra: None, drained_part: false, busy_us: None, reset_after_us: None });
+    let b = run(pbase, &hs, &Run { h: 0, shift: Duration::from_secs(r["shift_s"].as_u64().unwrap_or(0)), extra, drained_part: r["drained"].as_bool().unwrap_or(false), busy_us: r["busy_us"].as_u64(), reset_after_us: r["reset_after_us"].as_u64() });
     let (la, lb): (Vec<&str>, Vec<&str>) = if r["extra"].as_str().unwrap_or("None") != "None" {
         (a.abs_lines.iter().map(|s| s.as_str()).collect(), b.abs_lines.iter().map(|s| s.as_str()).collect())
     } else {
